@@ -8,7 +8,7 @@ from ..core import asthelp as H
 from ..core.interp import Interp
 from ..core.progdb import AnalysisError
 from ..core.values import Frame, Obj, PyTuple, to_term
-from ..specs.merge import MergeHook, check_merge, check_term, span_terms, busy_term
+from ..specs.merge import MergeHook, check_merge, check_term, span_terms, busy_term, merged_frame_of
 from ..specs import kernel_type as KT
 
 EXPLANATION = (
@@ -21,6 +21,55 @@ EXPLANATION = (
     "numeric results and pandas' own semantics are not decided."
 )
 BA = "hta.analyzers.breakdown_analysis"
+
+
+def _per_rank_path(db, chk, where2, TR, r, calls, ptag):
+    if isinstance(r.ret, PyTuple) and len(r.ret.items) == 4 and len(calls) == 1:
+        # only the device rows were merged: whatever compute_time is, it is not the measure of merged COMPUTATION intervals
+        c1 = calls[0]
+        kt_expected = KT.kernel_type_term(db, ("getitem", T.P("sym_table"), T.col(TR, "name")))
+        M2 = merged_frame_of((TR, T.and_(c1["arg_ctx"][1], T.cmp("==", kt_expected, T.C("COMPUTATION"))), None), T.col(TR, "ts"), T.col(TR, "dur"))
+        comp = to_term(r.ret.items[1])
+        check_term(chk, "C04.R2-arithmetic", "2nd result: compute_time = measure of the union (merge_kernel_intervals) of the COMPUTATION rows" + ptag, where2, comp, [busy_term(M2)],
+                   "the overlap groups of ALL device rows are not the overlap groups of the computation rows: re-using them counts gaps between computation kernels that other kernels bridge")
+    elif not isinstance(r.ret, PyTuple) or len(r.ret.items) != 4 or len(calls) != 2:
+        chk.ob("C04.R2-arithmetic", "idle_time_per_rank: two merges, four results" + ptag, None, where2,
+               found=f"merges={len(calls)}")
+    else:
+        c1, c2 = calls
+        P1 = c1["arg_ctx"][1]
+        # device predicate: truth table over the stream values the property allows
+        tt = {}
+        try:
+            for sv in (-1, 0, 1, 7, 20):
+                tt[sv] = bool(T.evaluate(P1, lambda leaf, sv=sv: sv if leaf == T.col(TR, "stream") else (_ for _ in ()).throw(T.Unknown(leaf))))
+            okp = tt == {-1: False, 0: True, 1: True, 7: True, 20: True}
+            chk.ob("C04.R2-device-rows", "device rows = every stream except -1 (stream 0 included: this property makes no assumption about stream ids)", okp, where2,
+                   found={"predicate": T.show(P1), "truth_table": tt}, accepted={-1: False, 0: True, 1: True, 7: True, 20: True},
+                   why="host rows in the sweep (or device rows missing, e.g. activities on stream 0 - this property does not presuppose positive stream ids) change span and idle")
+        except T.Unknown as u:
+            chk.ob("C04.R2-device-rows", "device rows predicate reads only the stream column", False, where2, found=T.show(P1),
+                   accepted="a predicate over stream alone", why="a predicate that also looks at dur/cat drops device activities (e.g. zero-length ones at the span's ends)")
+        chk.ob("C04.R2-device-rows", "merge input is the device rows in file order with their own ts/dur", c1["arg_ctx"][0] == TR and c1["ts"] == T.col(TR, "ts") and c1["dur"] == T.col(TR, "dur"),
+               where2, found=[T._ctx(c1["arg_ctx"]), T.show(c1["ts"]), T.show(c1["dur"])], accepted="rows of the trace frame, columns ts and dur")
+        # kernel type column
+        kt_expected = KT.kernel_type_term(db, ("getitem", T.P("sym_table"), T.col(TR, "name")))
+        P2 = c2["arg_ctx"][1]
+        acc_P2 = [T.and_(P1, T.cmp("==", kt_expected, T.C("COMPUTATION")))]
+        check_term(chk, "C04.R2-arithmetic", "compute rows = device rows whose kernel type (of the decoded name) is COMPUTATION", where2, P2, acc_P2,
+                   "compute_time must be the union of exactly the computation kernels")
+        chk.ob("C04.R2-arithmetic", "compute merge uses the rows' own ts/dur", c2["ts"] == T.col(TR, "ts") and c2["dur"] == T.col(TR, "dur"), where2,
+               found=[T.show(c2["ts"]), T.show(c2["dur"])], accepted="ts, dur")
+        M1, M2 = c1["frame"], c2["frame"]
+        idle, comp, nonc, kt = (to_term(x) for x in r.ret.items)
+        spans = span_terms(M1)
+        check_term(chk, "C04.R2-arithmetic", "4th result: kernel_time (span of all device rows)", where2, kt, spans)
+        check_term(chk, "C04.R2-arithmetic", "1st result: idle_time", where2, idle, [T.sub(s, busy_term(M1)) for s in spans])
+        check_term(chk, "C04.R2-arithmetic", "2nd result: compute_time = measure of merged computation kernels", where2, comp, [busy_term(M2)])
+        check_term(chk, "C04.R2-arithmetic", "3rd result: non_compute_time = kernel_time - compute_time - idle_time", where2, nonc,
+                   [T.sub(T.sub(s, busy_term(M2)), T.sub(s, busy_term(M1))) for s in spans],
+                   "the three parts must add up to kernel_time exactly")
+
 
 
 def run(db, chk) -> None:
@@ -66,53 +115,13 @@ def run(db, chk) -> None:
                      lambda I: {"cls": Obj("cls", cls=cls), "sym_table": T.P("sym_table")})
     chk.analysed_add("functions", ref2)
     ok_runs = [r for r in runs if r.raised is None]
-    if len(ok_runs) == 1 and isinstance(ok_runs[0].ret, PyTuple) and len(ok_runs[0].ret.items) == 4 and len(hook.calls) == 1:
-        # only the device rows were merged: whatever compute_time is, it is not the measure of merged COMPUTATION intervals
-        from ..specs.merge import merged_frame_of
-        c1 = hook.calls[0]
-        kt_expected = KT.kernel_type_term(db, ("getitem", T.P("sym_table"), T.col(TR, "name")))
-        M2 = merged_frame_of((TR, T.and_(c1["arg_ctx"][1], T.cmp("==", kt_expected, T.C("COMPUTATION"))), None), T.col(TR, "ts"), T.col(TR, "dur"))
-        comp = to_term(ok_runs[0].ret.items[1])
-        check_term(chk, "C04.R2-arithmetic", "2nd result: compute_time = measure of the union (merge_kernel_intervals) of the COMPUTATION rows", where2, comp, [busy_term(M2)],
-                   "the overlap groups of ALL device rows are not the overlap groups of the computation rows: re-using them counts gaps between computation kernels that other kernels bridge")
-    elif len(ok_runs) != 1 or not isinstance(ok_runs[0].ret, PyTuple) or len(ok_runs[0].ret.items) != 4 or len(hook.calls) != 2:
-        chk.ob("C04.R2-arithmetic", "idle_time_per_rank: one normal path, two merges, four results", None, where2,
-               found=f"paths={len(ok_runs)} merges={len(hook.calls)}")
-    else:
-        r = ok_runs[0]
-        c1, c2 = hook.calls
-        P1 = c1["arg_ctx"][1]
-        # device predicate: truth table over the stream values the property allows
-        tt = {}
-        try:
-            for sv in (-1, 0, 1, 7, 20):
-                tt[sv] = bool(T.evaluate(P1, lambda leaf, sv=sv: sv if leaf == T.col(TR, "stream") else (_ for _ in ()).throw(T.Unknown(leaf))))
-            okp = tt == {-1: False, 0: True, 1: True, 7: True, 20: True}
-            chk.ob("C04.R2-device-rows", "device rows = every stream except -1 (stream 0 included: this property makes no assumption about stream ids)", okp, where2,
-                   found={"predicate": T.show(P1), "truth_table": tt}, accepted={-1: False, 0: True, 1: True, 7: True, 20: True},
-                   why="host rows in the sweep (or device rows missing, e.g. activities on stream 0 - this property does not presuppose positive stream ids) change span and idle")
-        except T.Unknown as u:
-            chk.ob("C04.R2-device-rows", "device rows predicate reads only the stream column", False, where2, found=T.show(P1),
-                   accepted="a predicate over stream alone", why="a predicate that also looks at dur/cat drops device activities (e.g. zero-length ones at the span's ends)")
-        chk.ob("C04.R2-device-rows", "merge input is the device rows in file order with their own ts/dur", c1["arg_ctx"][0] == TR and c1["ts"] == T.col(TR, "ts") and c1["dur"] == T.col(TR, "dur"),
-               where2, found=[T._ctx(c1["arg_ctx"]), T.show(c1["ts"]), T.show(c1["dur"])], accepted="rows of the trace frame, columns ts and dur")
-        # kernel type column
-        kt_expected = KT.kernel_type_term(db, ("getitem", T.P("sym_table"), T.col(TR, "name")))
-        P2 = c2["arg_ctx"][1]
-        acc_P2 = [T.and_(P1, T.cmp("==", kt_expected, T.C("COMPUTATION")))]
-        check_term(chk, "C04.R2-arithmetic", "compute rows = device rows whose kernel type (of the decoded name) is COMPUTATION", where2, P2, acc_P2,
-                   "compute_time must be the union of exactly the computation kernels")
-        chk.ob("C04.R2-arithmetic", "compute merge uses the rows' own ts/dur", c2["ts"] == T.col(TR, "ts") and c2["dur"] == T.col(TR, "dur"), where2,
-               found=[T.show(c2["ts"]), T.show(c2["dur"])], accepted="ts, dur")
-        M1, M2 = c1["frame"], c2["frame"]
-        idle, comp, nonc, kt = (to_term(x) for x in r.ret.items)
-        spans = span_terms(M1)
-        check_term(chk, "C04.R2-arithmetic", "4th result: kernel_time (span of all device rows)", where2, kt, spans)
-        check_term(chk, "C04.R2-arithmetic", "1st result: idle_time", where2, idle, [T.sub(s, busy_term(M1)) for s in spans])
-        check_term(chk, "C04.R2-arithmetic", "2nd result: compute_time = measure of merged computation kernels", where2, comp, [busy_term(M2)])
-        check_term(chk, "C04.R2-arithmetic", "3rd result: non_compute_time = kernel_time - compute_time - idle_time", where2, nonc,
-                   [T.sub(T.sub(s, busy_term(M2)), T.sub(s, busy_term(M1))) for s in spans],
-                   "the three parts must add up to kernel_time exactly")
+    from ..specs.merge import merged_frame_of
+    if not ok_runs or len(ok_runs) > 6:
+        chk.ob("C04.R2-arithmetic", "idle_time_per_rank: analysable number of normal paths", None, where2, found=f"paths={len(ok_runs)}")
+    for r in ok_runs:
+        calls = [{"arg_ctx": e["arg_ctx"], "ts": e["ts"], "dur": e["dur"], "line": e["line"], "frame": merged_frame_of(e["arg_ctx"], e["ts"], e["dur"])} for e in r.events if e["kind"] == "merge-call"]
+        ptag = (" [when " + T.show(r.cond())[:70] + "]") if len(ok_runs) > 1 else ""
+        _per_rank_path(db, chk, where2, TR, r, calls, ptag)
 
     # ---------------------------------------------------------------- R2c plumbing and percentages
     ref3 = f"{BA}:BreakdownAnalysis.get_temporal_breakdown"
